@@ -20,12 +20,15 @@ RULE = ("REPEAT protocol (field rep): the object first represents a neighbour gr
 EXHAUSTIVE = {"quick": "ADMG(n), ANC(n) n<=3: all disjoint X,Y,Z with |X|,|Y|<=2; DAG(4): same queries; "
                        "ADMG(4), ANC(4): all singleton X,Y, all Z (DAG(5): one sixth, not exhaustive)",
               "thorough": "ADMG(n), ANC(n) n<=4, all disjoint X,Y,Z with |X|,|Y|<=2; DAG(5): all singleton X,Y, all Z"}
-TRUSTED = ["networkx ancestors / in_edges / out_edges / neighbors / is_directed_acyclic_graph taken at face value",
+TRUSTED = ["/verif/translator/sepstep.py (Python-ast -> Gallina for the search loop of m_separated; its output is proved equal to "
+           "the hand-written model, which the correspondence stream compares with the real function)",
+           "networkx ancestors / in_edges / out_edges / neighbors / is_directed_acyclic_graph taken at face value",
            "the deque discipline and pop-time visited marking of m_separated are abstracted into a reachability closure in "
            "the model; that abstraction is what the correspondence (incl. random insertion orders) watches"]
 ASSUMPTIONS = ["default edge-type names, plus one family of custom names passed explicitly (beyond the quantifier)", "int labels (label families: C15)", "X, Y, Z are sets of nodes of G",
                "a missing layer is modelled as an empty layer"]
 TECHNIQUE = ("Coq proof (model = m-separation by m-connecting paths, unbounded: closure invariant + open-walk-to-path surgery) "
+             "+ transition rules translated from the source on every run and proved equal to the model's (tie T) "
              "+ extracted-model correspondence")
 LEVEL_TEXT = ("All clauses are unbounded Coq theorems about the model msep_model (one Gallina clause per branch of the two-deque "
               "search of m_separated): msep_correct / msep_correct_false (for every graph with acyclic directed layer that has no "
@@ -36,7 +39,10 @@ LEVEL_TEXT = ("All clauses are unbounded Coq theorems about the model msep_model
               "per case). Shared lemmas proved here: msep_dec_spec (oracle reflects msep), open_walk_to_path, msep_sym. "
               "The implementation is tied to the model by correspondence only (exhaustive n<=4 + random, both argument orders, "
               "random insertion orders); non-mutation of G is observed, not proved.")
-LEVEL_NOTE = ("No bounded theorem is needed for C01. Print Assumptions: closed under the global context for all theorems. "
+LEVEL_NOTE = ("Tie T: translator/sepstep.py (fail closed) reads the while loop of m_separated and emits Gen/Gen_SepStep.v; "
+              "Tie/SepStep_C01.v proves generated step = sep_step (same members), soundness of the has_* switches, the visited-set "
+              "discipline, and repo_msep_model_correct. The deque order / termination argument stays abstracted into the closure. "
+              "No bounded theorem is needed for C01. Print Assumptions: closed under the global context for all theorems. "
               "Trusted: Coq kernel, extraction, harness; networkx primitives at face value; missing layer = empty layer.")
 ALL_LAYERS = ["directed", "bidirected", "undirected"]
 SPOT_N = 25
@@ -331,3 +337,89 @@ def shrink(case):
         qs = [q for q in case["qs"] if all(v in vs for part in q for v in part)]
         if qs:
             yield dict(case, g=h, qs=qs, _noskip=True)
+
+
+# ------------------------------------------------------------------ tie (T): transition rules translated from the source
+def _sepstep():
+    import os
+    import sys
+    import framework as fw
+    p = os.path.join(fw.VERIF, "translator")
+    if p not in sys.path:
+        sys.path.insert(0, p)
+    import sepstep
+    return sepstep
+
+
+def pre_build(ctx):
+    """regenerate Gen/Gen_SepStep.v from ctx["repo"] and check Tie/SepStep_C01.v against it, both under the build lock"""
+    import re
+    import subprocess
+    import framework as fw
+    problems = []
+    with fw.Lock():
+        res, changed = _sepstep().regenerate(ctx["repo"])
+        ctx["sepstep_result"], ctx["gen_sepstep_changed"] = res, changed
+        fw.ensure_makefile()
+        p = subprocess.run(["make", "-j4", "theories/Tie/SepStep_C01.vo"], cwd=fw.COQ, env=fw.ENV, timeout=3000,
+                           stdout=subprocess.PIPE, stderr=subprocess.STDOUT, text=True)
+        ctx["sepstep_tie_ok"] = p.returncode == 0
+        if p.returncode != 0 and not res.problems:
+            m = re.search(r'File "\./([^"]+)", line (\d+)[^\n]*\n((?:.*\n){0,3})', p.stdout)
+            where = "%s:%s %s" % (m.group(1), m.group(2), " ".join(m.group(3).split())[:200]) if m else p.stdout[-300:]
+            ctx["sepstep_where"] = where
+            problems.append("the transition rules translated from %s/%s are no longer the model's rules (tie T, "
+                            "generated step = sep_step): %s" % (ctx["repo"], _sepstep().REL, where))
+    problems += ["translator rejects the source (fail closed): " + pr for pr in res.problems]
+    return problems
+
+
+def _table_diff(res):
+    """which pushes of the translated table differ from the table of C01.Model.sep_step (for the report only; the verdict is Coq's)"""
+    want = {("backward", "unbrs"): "backward", ("backward", "parents"): "backward", ("backward", "children"): "forward",
+            ("backward", "siblings"): "forward", ("forward", "parents"): "backward", ("forward", "siblings"): "forward",
+            ("forward", "unbrs"): "backward", ("forward", "children"): "forward"}
+    ctxw = {("forward", "parents"): "memb node anZ", ("forward", "siblings"): "memb node anZ",
+            ("forward", "unbrs"): "negb (memb node Z)", ("forward", "children"): "negb (memb node Z)"}
+    out = []
+    seen = set()
+    for p in res.pushes:
+        k = (p["block"], p["cls"])
+        seen.add(k)
+        sem = [c for c in p["conds"] if not c.startswith("has_")]
+        if want.get(k) != p["dest"]:
+            out.append((p["line"], "%s block pushes %s to %s_deque (model: %s_deque)" % (p["block"], p["cls"], p["dest"], want.get(k))))
+        elif p["guard"] != p["dest"]:
+            out.append((p["line"], "%s block: push of %s into %s_deque is guarded by %s_visited" % (p["block"], p["cls"], p["dest"], p["guard"])))
+        elif p["block"] == "forward" and sem != [ctxw[k]]:
+            out.append((p["line"], "forward block pushes %s under %s (model: %s)" % (p["cls"], sem, ctxw[k])))
+        elif p["block"] == "backward" and sem != ["not(memb node Z)"]:
+            out.append((p["line"], "backward block pushes %s under %s (model: node not in z)" % (p["cls"], sem)))
+    for k in want:
+        if k not in seen:
+            out.append((0, "%s block never pushes %s" % k))
+    return out
+
+
+def extra(ctx, pool):
+    res = ctx.get("sepstep_result")
+    if res is None:
+        return []
+    out = []
+    for pr in res.problems:
+        out.append({"reason": "tie T broken: " + pr, "found_input": False, "broken": pr,
+                    "note": "translator/sepstep.py no longer recognises the search loop of m_separated; Gen/Gen_SepStep.v has no "
+                            "definitions, Tie/SepStep_C01.v and Props/C01.v do not compile"})
+    if not res.problems and ctx.get("sepstep_tie_ok") is False:
+        diffs = _table_diff(res)
+        for line, what in diffs or [(0, ctx.get("sepstep_where", "see the Coq log"))]:
+            out.append({"reason": "tie T broken: T:m_separation.py:%s %s; Tie/SepStep_C01.v (generated step = model step / visited "
+                                  "discipline) does not compile" % (line, what), "found_input": False,
+                        "broken": "T:m_separation.py:%s" % line, "pushes": res.pushes})
+    return out
+
+
+def coverage_extra(ctx):
+    res = ctx.get("sepstep_result")
+    return {"translated_pushes": len(res.pushes) if res else 0, "gen_sepstep_rewritten": bool(ctx.get("gen_sepstep_changed")),
+            "tie_T_lemmas_ok": ctx.get("sepstep_tie_ok")}
